@@ -26,6 +26,15 @@ def run(chk):
         cs.append({"kind": "delta" if delta else "split", "a": a, "b": rng.choice([max(a) + 1, 5, 10]), "f": fa,
                    "F": rng.choice([sum(f) or 1, 10, 7]), "lo": lo, "hi": hi, "target": rng.randrange(0, hi + 2), "delta": delta,
                    "src": "random"})
+    # degrees beyond CPython's small-int cache (identity vs equality slips): equal probabilities keep every weight at 1
+    for tgt in (256, 257, 258, 300):
+        for delta in (True, False):
+            lo, hi = tgt - 1, tgt + 2
+            f = [0] * (hi + 2)
+            for k in range(lo, hi):
+                f[k - 1] = 1 + (k % 2)
+            cs.append({"kind": "delta" if delta else "split", "a": [1, 1], "b": 2, "f": f, "F": 8, "lo": lo, "hi": hi, "target": tgt,
+                       "delta": delta, "src": "large-degree"})
     traces = [L.execute(c) for c in cs]
     multi = [t for t in traces if len(t.get("steps", [])) > 1]
     if not multi:
